@@ -79,7 +79,13 @@ def run(tier, seed):
     ri = resume_items(tier)
     col.merge(stepcheck.explore(ri, MONS, 0, 0, seed=seed))
     col.merge(stepcheck.explore(stepcheck.edited_items(names=("add-task", "add-link", "task-work")), MONS, 0, 0, seed=seed))  # the model edited between two runs (a first task for an empty component)
-    col.merge(stepcheck.explore(F.scale_items(("TSLACK",)), MONS, 0, 0, seed=seed))  # medium-sized models (10-14 tasks / workers / machines), long absence lists
+    col.merge(stepcheck.explore(F.scale_items(("TSLACK",)), MONS, 0, 0, seed=seed))
+    # the component/task log relation after the absence steps were deleted again (long, regular calendars on runs of 20-60 steps)
+    week = [k for k in range(0, 75) if k % 7 in (5, 6)]
+    pr = [(sp, dict(o, absence=list(ab), post_remove=True, max_time=o["max_time"] + len(ab))) for sp, o in F.scale_items(("TSLACK",)) if not o["absence"] and not o.get("res_absence")
+          for ab in (week[:18], week, [3, 4, 9, 15, 16, 17, 22, 23, 30, 31], list(range(0, 60, 3)))]
+    pr += [(sp, dict(o, absence=[1, 3], post_remove=True)) for sp, o in its[::13] if not any(k in o for k in ("backward", "post_insert", "reload", "presim", "absence"))]
+    col.merge(stepcheck.explore(pr, MONS, 0, 0, seed=seed))  # medium-sized models (10-14 tasks / workers / machines), long absence lists
     meta = {
         "level": "model_checking",
         "rule": "FS/SS workflows on 3 tasks x every assignment of the tasks to <=2 (thorough 3) components or to none (incl. empty components) x progress/auto variants, "
